@@ -396,7 +396,14 @@ def run(ctx, rep):
     r3 = Report("tmp")
     c11.adjustments(R, r3)
     for o in r3.obligations:
-        rep.ob("R6", o["instance"], o["ok"], o["detail"], o["site"], key="R6:" + o["instance"])
+        # what is moved (R1) and that the amount applied is the amount checked (R2 guard); which lots' cost the guard counts is a
+        # question of acceptance (C11), not of conservation
+        if o["instance"].startswith(("capreturn:−", "accumulation:", "apportion:", "capreturn:guard")):
+            rep.ob("R6", o["instance"], o["ok"], o["detail"], o["site"], key="R6:" + o["instance"])
+    # a lot's cost offset is filed and read under the line's position in the whole list (shared with C09-R5): an index that
+    # counts only the day's purchases files it under another line, and the adjustment is dropped or lands on another lot
+    import rules.c09 as c09
+    c09.shared_index_space(R, rep, "R7")
     pair_costs(R, rep)
     same_day_weights(R, rep)
     sibling_unit_cost(R, rep)
